@@ -168,20 +168,55 @@ func r11a(c *an.Ctx) {
 	// Status.X is the table lookup
 	if fn := c.MustFn("core/task", "Status.X"); fn != nil {
 		c.Subject()
-		ok := false
+		// every return yields STATUS_PRODUCT[s][other] (plain or comma-ok lookups), or UNDEFINED - the value a plain lookup
+		// would give - on a path where a comma-ok lookup missed
+		asLookup := func(v ssa.Value) *ssa.Lookup {
+			v = an.Strip(v)
+			if ex, isEx := v.(*ssa.Extract); isEx && ex.Index == 0 {
+				v = ex.Tuple
+			}
+			lk, _ := v.(*ssa.Lookup)
+			return lk
+		}
+		cell := func(v ssa.Value) bool {
+			lk := asLookup(v)
+			if lk == nil || lk.Index != ssa.Value(fn.Params[1]) {
+				return false
+			}
+			lk2 := asLookup(lk.X)
+			if lk2 == nil || lk2.Index != ssa.Value(fn.Params[0]) {
+				return false
+			}
+			g, isG := lk2.X.(*ssa.UnOp)
+			if !isG {
+				return false
+			}
+			gl, isGl := g.X.(*ssa.Global)
+			return isGl && gl.Name() == "STATUS_PRODUCT"
+		}
+		ok := true
+		nCell := 0
 		for _, r := range an.Returns(fn) {
-			if lk, isLk := an.RetVal(r, 0).(*ssa.Lookup); isLk {
-				if lk2, isLk2 := lk.X.(*ssa.Lookup); isLk2 {
-					if g, isG := lk2.X.(*ssa.UnOp); isG {
-						if gl, isGl := g.X.(*ssa.Global); isGl && gl.Name() == "STATUS_PRODUCT" {
-							if lk2.Index == ssa.Value(fn.Params[0]) && lk.Index == ssa.Value(fn.Params[1]) {
-								ok = true
-							}
-						}
+			v := an.RetVal(r, 0)
+			switch {
+			case cell(v):
+				nCell++
+			default:
+				k, isK := an.ConstInt(v)
+				missed := an.AnyAtom(r.Block(), func(a an.Atom) bool {
+					ex, isEx := a.X.(*ssa.Extract)
+					if !isEx || a.Y != nil || a.Val || ex.Index != 1 {
+						return false
 					}
+					lk, isLk := ex.Tuple.(*ssa.Lookup)
+					return isLk && lk.CommaOk
+				})
+				if !(isK && k == U && missed) {
+					ok = false
 				}
 			}
 		}
+		ok = ok && nCell >= 1
 		c.Ob("(core/task.Status).X|is-table-lookup", fn.Pos(), ok, "Status.X(s, other) must be STATUS_PRODUCT[s][other]")
 	}
 	c.Assume("R11a is exhaustive: all 25 pairs and 125 triples of the five declared status constants")
